@@ -243,11 +243,11 @@ theorem bndK_repeat (tb : CTable Nat) (n : Nat) (rel : Bool) :
 
 /-! ## Well-formedness seen from one tensor, and the freshness precondition -/
 
-/-- Loops factorise perfectly, shapes stay positive, at the compute the tensor's tile is a single element; a Storage
+/-- Loops factorise perfectly, shapes stay positive, at the compute (the last node) the tensor's tile is a single element; a Storage
 node of the tensor refers to a Memory, a Toll node to a Toll and has a holder of the tensor above it (`hp`). -/
 def wfT (arch : Arch Rat) (ti : TInfo) : Bool → List Nat → Mapping Nat → Prop
   | _, _, [] => False
-  | _, shape, .compute :: _ => ∀ rv ∈ ti.rvs, shape.getD rv 1 = 1
+  | _, shape, .compute :: r => (∀ rv ∈ ti.rvs, shape.getD rv 1 = 1) ∧ r = []
   | hp, shape, .loop rv tile :: r =>
     rv < shape.length ∧ 0 < tile ∧ 0 < shape.getD rv 1 ∧ tile ∣ shape.getD rv 1 ∧ wfT arch ti hp (shape.set rv tile) r
   | hp, shape, .storage l ts _ :: r =>
